@@ -120,6 +120,10 @@ def slice_from(fn: ast.FunctionDef, start_at: str, qualname: str) -> ast.Functio
                 r = find(st.body, through_if) or find(st.orelse, through_if)
                 if r is not None:
                     return r
+            if through_if and isinstance(st, ast.For):
+                r = find(st.body, through_if)  # (a slice of a loop body: one iteration, from that statement on)
+                if r is not None:
+                    return r
         return None
 
     rest = find(fn.body) or find(fn.body, through_if=True)  # (bodies of `if` statements are searched only when nothing else matched)
